@@ -68,10 +68,50 @@ def parse_output(out, names):
             if m: absorb(m.group(1), b)
     return res
 
+def _src_hash(repo):
+    import hashlib
+    h = hashlib.sha1(); base = os.path.join(repo, 'datasketches/src')
+    for dp, dn, fn in sorted(os.walk(base)):
+        dn.sort()
+        for f in sorted(fn):
+            p_ = os.path.join(dp, f); h.update(os.path.relpath(p_, base).encode()); h.update(open(p_, 'rb').read())
+    h.update(open(os.path.abspath(__file__), 'rb').read())
+    return h.hexdigest()
+
+def _cache_path(srch, h):
+    import hashlib
+    body = open(os.path.join(ROOT, 'kani', h['file']), 'rb').read()
+    key = hashlib.sha1(('%s|%s|%s|%s|%s' % (srch, h['name'], h.get('append_to'), h.get('timeout'), h.get('kind'))).encode() + body).hexdigest()
+    return os.path.join(ROOT, '.cache', 'kx', '%s_%s.json' % (h['name'], key[:20]))
+
 def run(names, repo='/repo', jobs=4, playback=False, keep=False, extra_timeout=None, overrides=None):
+    """verdicts are cached under /verif/.cache/kx keyed by the sha1 of EVERY source file of the crate copy + the harness file + this
+    tool, so a result is reused only for byte-identical input (several properties share harnesses; absent after a fresh restore)"""
     reg = {h['name']: dict(h) for h in registry()}
     for n_, o_ in (overrides or {}).items():
         if n_ in reg: reg[n_].update(o_)
+    cached = {}
+    use_cache = os.environ.get('KX_NO_CACHE') != '1' and not playback and not keep and not extra_timeout
+    if use_cache:
+        srch = _src_hash(repo); rest = []
+        for n in names:
+            cp = _cache_path(srch, reg[n])
+            try:
+                r_ = json.load(open(cp)); r_['cached'] = True; cached[n] = r_
+            except (OSError, ValueError): rest.append(n)
+        if not rest: return cached
+        res_ = _run(rest, reg, repo, jobs, playback, keep, extra_timeout)
+        os.makedirs(os.path.join(ROOT, '.cache', 'kx'), exist_ok=True)
+        for n, r_ in res_.items():
+            if r_.get('verdict') in ('SUCCESSFUL', 'FAILED'):
+                try:
+                    cp = _cache_path(srch, reg[n]); json.dump(r_, open(cp + '.tmp', 'w')); os.replace(cp + '.tmp', cp)
+                except OSError: pass
+        res_.update(cached)
+        return {n: res_[n] for n in names if n in res_}
+    return _run(names, reg, repo, jobs, playback, keep, extra_timeout)
+
+def _run(names, reg, repo, jobs, playback, keep, extra_timeout):
     hs = [reg[n] for n in names]
     files = {}
     for h in hs: files[os.path.join(ROOT, 'kani', h['file'])] = h['append_to']
